@@ -3,7 +3,7 @@
 # to a scratch copy of /repo, runs the quick check of the property it must break, and requires exit 1
 # plus a replay file that reproduces. Usage: ./sensitivity.sh [name-substring] ; results in mutants/RESULTS.tsv
 cd "$(dirname "$0")"
-export GOFLAGS=-mod=mod GOPROXY=off GOSUMDB=off GOTOOLCHAIN=local
+export GOFLAGS=-mod=mod GOPROXY=off GOSUMDB=off GOTOOLCHAIN=local VERIF_MAX_CLASSES=2 VERIF_MINIMISE_BUDGET=20s
 FILTER="$1"; SCALE="${SCALE:-0.25}"
 OUT=mutants/RESULTS.tsv
 [ -z "$FILTER" ] && : > $OUT
